@@ -52,7 +52,9 @@ ASSUMPTIONS = [
     "still waiting in the queue may be brought up to date)",
 ]
 
-NAMES = ["CIRC", "STREAM", "NS", "DESCCHANGED", "HS_DESC", "CONF_CHANGED"]
+# STREAM_BW / CIRC_MINOR: names of which another subscribed name is a prefix
+NAMES = ["CIRC", "STREAM", "NS", "DESCCHANGED", "STREAM_BW", "CIRC_MINOR", "HS_DESC", "CONF_CHANGED"]
+N_LISTENED = 6
 
 
 def _ev_texts():
@@ -81,7 +83,7 @@ def listeners():
                                st.integers(0, 4).map(lambda j: "rm:%d" % j),
                                st.integers(0, 4).map(lambda j: "add:%d" % j)), max_size=3)
     return st.lists(st.builds(lambda n, b, k: {"name": n, "behav": b, "kind": k},
-                              st.sampled_from(NAMES[:4]), behav, st.sampled_from(["func", "bound"])),
+                              st.sampled_from(NAMES[:N_LISTENED]), behav, st.sampled_from(["func", "bound"])),
                     min_size=1, max_size=5)
 
 
@@ -123,7 +125,7 @@ def mid_event_cases(draw):
     k = draw(st.integers(1, len(cmds) - 1))
     ev = draw(event_specs().filter(lambda e: e["form"] != "single"))
     ls = list(case["listeners"])
-    if not any(l["name"] == ev["name"] for l in ls) and ev["name"] in NAMES[:4]:
+    if not any(l["name"] == ev["name"] for l in ls) and ev["name"] in NAMES[:N_LISTENED]:
         ls[0] = dict(ls[0], name=ev["name"])
     events = [e for e in case["events"] if not (e["pos"] == k and not e["late"])]
     events.append({"pos": k, "late": False, "ev": ev})
